@@ -174,6 +174,39 @@ impl Property for C15 {
             t += 10_000;
         } else {
             s.sched.one_per_step = rng.bool();
+            // a registration that is still probing while hostile "simultaneous probes" for its names arrive: authority
+            // sections that are a prefix of the daemon's own record set, a superset, records of other names only, none
+            {
+                let t_reg = t + rng.below(1500);
+                let svc = SvcSpec { ty: "_sane._tcp.local.".into(), instance: "probed".into(), host: "probedhost.local.".into(), addrs: vec!["192.168.1.10".into(), "fe80::1:a".into()], port: 7100, txt: vec![("k".into(), Some(b"v".to_vec()))], addr_auto: false, probe: true, intfs: None, link_local_only: false, txt_via: None };
+                s.op(t_reg, Op::Register { d: 0, svc: svc.clone() });
+                let full = wire::Name::from_dotted("probed._sane._tcp.local.");
+                let host = wire::Name::from_dotted("probedhost.local.");
+                let other = wire::Name::from_dotted("somebody-else.local.");
+                let txt = wire::Rec::txt(&full, wire::txt_encode(&svc.txt), 4500, true);
+                let srv = wire::Rec::srv(&full, &host, 7100, 120, true);
+                let a = wire::Rec::a(&host, [192, 168, 1, 10], 120, true);
+                let aaaa = wire::Rec::aaaa(&host, ip6("fe80::1:a"), 120, true);
+                let mut tp = t_reg + 20 + rng.below(80);
+                while tp < t_reg + 1000 {
+                    let on_host = rng.bool();
+                    let name = if on_host { &host } else { &full };
+                    let mut m = wire::Msg::query().q(name, wire::T_ANY);
+                    m.authorities = match (on_host, rng.below(6)) {
+                        (false, 0) => vec![txt.clone()],                       // a prefix of ours
+                        (true, 0) => vec![a.clone()],
+                        (false, 1) => vec![txt.clone(), srv.clone(), wire::Rec::srv(&full, &host, 9999, 120, true)], // more than ours
+                        (true, 1) => vec![a.clone(), aaaa.clone(), wire::Rec::a(&host, [192, 168, 1, 99], 120, true)],
+                        (_, 2) => vec![wire::Rec::a(&other, [10, 0, 0, 1], 120, true)], // other names only
+                        (_, 3) => vec![wire::Rec::a(&other, [10, 0, 0, 1], 120, true), if on_host { a.clone() } else { txt.clone() }],
+                        (false, 4) => vec![srv.clone()],
+                        (true, 4) => vec![aaaa.clone()],
+                        _ => vec![if on_host { aaaa.clone() } else { srv.clone() }, if on_host { a.clone() } else { txt.clone() }], // ours, other order
+                    };
+                    s.op(tp, Op::PeerSend { p: 0, v4: true, sport: 5353, msg: m, to: Dest::Mcast });
+                    tp += 30 + rng.below(120);
+                }
+            }
             for _ in 0..(20 + rng.below(60)) {
                 let op = match rng.below(5) {
                     0 | 1 => {
